@@ -197,6 +197,43 @@ theorem C10_exhaustion (result : List CRow) (c : Cursor) (h : Inv result c) :
     simp [List.take_eq_nil_iff, List.drop_eq_nil_iff]
     omega
 
+/-- an iterator kept open across other calls: while it is live, `next()` delivers exactly the next row of the result
+    of the LAST execute at the cursor's current position (whatever was fetched or executed since the iterator was
+    obtained) and keeps the invariant; at the end of the result it delivers nothing and ends -/
+theorem C10_held_iterator (result : List CRow) (c : Cursor) (h : Inv result c) :
+    FetchOk result c (c.heldNext false).1 (c.heldNext false).2.2 ∧
+    ((c.heldNext false).2.1 = true ↔ c.pos = result.length) ∧
+    ((c.heldNext false).2.2 = [] ↔ c.pos = result.length) := by
+  have hf := fetchone_ok result c h
+  have hx := (C10_exhaustion result c h).1
+  unfold Cursor.heldNext
+  simp only [Bool.false_eq_true, if_false]
+  cases hfo : c.fetchone with
+  | mk c' o =>
+    rw [hfo] at hf hx
+    cases o with
+    | none => simp only [CursorOut.delivered] at hf; exact ⟨hf, by simpa using hx, by simpa using hx⟩
+    | row r =>
+      simp only [CursorOut.delivered] at hf
+      refine ⟨hf, ?_, ?_⟩ <;> simp at hx ⊢ <;> exact hx
+    | rows rs =>
+      -- fetchone never answers with a list
+      exfalso
+      unfold Cursor.fetchone at hfo
+      split at hfo <;> simp at hfo
+
+/-- an iterator that has ended stays ended: it delivers nothing and does not touch the cursor, also after another
+    execute has given the cursor new rows -/
+theorem C10_held_iterator_ended (c : Cursor) : c.heldNext true = (c, true, []) := rfl
+
+/-- a live kept iterator behaves like the first step of a fresh iteration -/
+theorem C10_held_iterator_fresh (c : Cursor) :
+    ((c.heldNext false).1, (c.heldNext false).2.2) = c.iterNext 1 := by
+  unfold Cursor.heldNext Cursor.iterNext
+  simp only [Bool.false_eq_true, if_false]
+  cases hfo : c.fetchone with
+  | mk c' o => cases o <;> simp [Cursor.iterNext]
+
 /-- before any execute: fetchone is None, the others are empty, rowcount is -1, no description -/
 theorem C10_before_execute :
     let c : Cursor := {}
